@@ -213,6 +213,23 @@ def write_target(n):
     return None
 
 
+def append_target(n):
+    """the container expression node n appends to, for the spellings of "append at the end": push_back / emplace_back,
+    insert(<c>.end(), …), and std::move / std::copy(first, last, std::back_inserter(<c>)); None otherwise"""
+    k = n.get('k')
+    if k == 'mcall' and short(n.get('callee', '')) in ('push_back', 'emplace_back'):
+        return n.get('obj')
+    if k == 'mcall' and short(n.get('callee', '')) == 'insert' and n.get('args'):
+        a0 = strip(n['args'][0])
+        if is_node(a0) and a0.get('k') == 'mcall' and short(a0.get('callee', '')) in ('end', 'cend') and show(strip(a0.get('obj'))) == show(strip(n.get('obj'))):
+            return n.get('obj')
+    if k == 'call' and callee(n) in ('std::move', 'std::copy', 'std::move_backward') and len(n.get('args', [])) == 3:
+        a2 = strip(n['args'][2])
+        if is_node(a2) and a2.get('k') == 'call' and callee(a2) == 'std::back_inserter' and len(a2.get('args', [])) == 1:
+            return a2['args'][0]
+    return None
+
+
 _NEG = {'==': '!=', '!=': '==', '<': '>=', '>=': '<', '>': '<=', '<=': '>'}
 
 
